@@ -198,12 +198,20 @@ impl<'t, 's> TreeGen<'t, 's> {
     }
 
     fn block(&mut self, depth: u32) -> Block {
+        let at = self.t.pos();
         let n = if self.small() {
             self.t.draw(2)
         } else {
             self.t.weighted(&[1, 3, 3, 2, 1]) as u32
         };
-        let stmts: Vec<Statement> = (0..n).map(|_| self.stmt(depth)).collect();
+        let stmts: Vec<Statement> = (0..n)
+            .map(|_| {
+                let start = self.t.pos();
+                let s = self.stmt(depth);
+                self.t.element(start, at);
+                s
+            })
+            .collect();
         if stmts.is_empty() {
             self.stats.inc("probe.empty_block");
         }
@@ -385,8 +393,16 @@ impl<'t, 's> TreeGen<'t, 's> {
         let nblocks = 1 + self.t.weighted(&[3, 3, 1]);
         let mut code = Vec::new();
         for _ in 0..nblocks {
+            let at = self.t.pos();
             let n = 1 + self.t.weighted(&[2, 3, 3, 2, 1]) as u32;
-            let stmts: Vec<Statement> = (0..n).map(|_| self.stmt(0)).collect();
+            let stmts: Vec<Statement> = (0..n)
+                .map(|_| {
+                    let start = self.t.pos();
+                    let s = self.stmt(0);
+                    self.t.element(start, at);
+                    s
+                })
+                .collect();
             code.push(Block::NonEmpty(stmts));
         }
         if self.t.chance(1, 6) {
